@@ -19,5 +19,5 @@ else
 fi
 rm -rf .git
 cd /verif
-VERIF_REPO="$SCR/lime-go" VERIF_OUT="$SCR/out" ./check "$ID" --tier "$TIER" 2>&1 | grep -E '^(VIOLATION|KNOWN-FINDING|SUMMARY|BUILD-FAILED|NOTE)' | cut -c1-400 | head -${MUTANT_LINES:-8}
+VERIF_REPO="$SCR/lime-go" VERIF_OUT="$SCR/out" ./check "$ID" --tier "$TIER" 2>&1 | grep -E '^(VIOLATION|KNOWN-FINDING|SUMMARY|BUILD-FAILED|NOTE)' | cut -c1-400 | sed -n "1,${MUTANT_LINES:-8}p"
 exit ${PIPESTATUS[0]}
